@@ -2,7 +2,19 @@
 
 package mcpx
 
-import "testing/synctest"
+import (
+	"runtime"
+	"testing/synctest"
+)
 
 // synctestWait blocks until every other goroutine of the bubble is durably blocked.
 func synctestWait() { synctest.Wait() }
+
+// synctestWaitSafe yields so that every goroutine runnable at this virtual
+// instant has run (several goroutines may call it; synctest.Wait may not be
+// called concurrently, so this is a plain cooperative yield).
+func synctestWaitSafe() {
+	for i := 0; i < 50; i++ {
+		runtime.Gosched()
+	}
+}
